@@ -18,11 +18,11 @@ Definition handle_ok (C : bytes) (r : option rhandle) (p : nat) : Prop :=
 
 Record qinv (c : cfg) (d : dq) (q : list bytes) : Prop := {
   qi_files : readFileNum d = 0 /\ writeFileNum d = 0 /\ nextReadFileNum d = 0;
-  qi_wpos : N.to_nat (writePos d) = length (seg0 d);
+  qi_wpos : (N.to_nat (writePos d) <= length (seg0 d))%nat;
   qi_exists : writePos d = 0 \/ seg_get (f_segs (fs d)) 0 = Some (seg0 d);
   qi_room : writePos d <= c_max c;
   qi_rpos : readPos d <= writePos d;
-  qi_data : skipn (N.to_nat (readPos d)) (seg0 d) = frames q;
+  qi_data : skipn (N.to_nat (readPos d)) (seg0 d) = frames q ++ skipn (N.to_nat (writePos d)) (seg0 d);
   qi_depth : depth d = Z.of_nat (length q);
   qi_small : forall m, In m q -> N.of_nat (length m) < 2147483648;
   qi_head : match q with
@@ -30,6 +30,9 @@ Record qinv (c : cfg) (d : dq) (q : list bytes) : Prop := {
             | m :: _ => ready d = true /\ pending d = m /\ nextReadPos d = readPos d + 4 + N.of_nat (length m)
                         /\ handle_ok (seg0 d) (rfile d) (N.to_nat (nextReadPos d)) /\ rfile d <> None
             end }.
+
+(* nothing lies beyond the write position (true until a crash leaves an unsynced tail) *)
+Definition tight (d : dq) : Prop := N.to_nat (writePos d) = length (seg0 d).
 
 (* ---- small facts ---- *)
 Lemma seg_get_set l n c : seg_get (seg_set l n c) n = Some c.
@@ -203,12 +206,17 @@ Proof. intros H. unfold seg0. rewrite H. reflexivity. Qed.
 
 (* ---- Put ---- *)
 Lemma put_step c d q m :
-  qinv c d q -> N.of_nat (length m) < 2147483648 -> writePos d + 4 + N.of_nat (length m) <= c_max c ->
-  exists d', loop_top c LOOP_FUEL (write_one c d m) = Some d' /\ qinv c d' (q ++ [m]) /\
+  qinv c d q -> tight d -> N.of_nat (length m) < 2147483648 -> writePos d + 4 + N.of_nat (length m) <= c_max c ->
+  exists d', loop_top c LOOP_FUEL (write_one c d m) = Some d' /\
+             (fs d' = fs (presync c (write_one c d m)) /\ trace d' = trace (presync c (write_one c d m)) /\ readPos d' = readPos (presync c (write_one c d m))) /\
+             qinv c d' (q ++ [m]) /\ tight d' /\
              writePos d' = writePos d + 4 + N.of_nat (length m).
 Proof.
-  intros I Hm Hroom. destruct I as [[Hrf [Hwf Hnf]] Hw Hex Hr Hrp Hdata Hdep Hsmall Hhead].
-  pose proof (write_one_fields c d m Hw Hwf Hroom) as F. cbv zeta in F.
+  intros I Ht Hm Hroom. destruct I as [[Hrf [Hwf Hnf]] Hw Hex Hr Hrp Hdata0 Hdep Hsmall Hhead].
+  unfold tight in Ht.
+  assert (Hdata : skipn (N.to_nat (readPos d)) (seg0 d) = frames q).
+  { rewrite Hdata0. rewrite (skipn_all2 (seg0 d)) by lia. apply app_nil_r. }
+  pose proof (write_one_fields c d m Ht Hwf Hroom) as F. cbv zeta in F.
   set (d1 := write_one c d m) in *.
   destruct F as [F1 [F2 [F3 [F4 [F5 [F6 [F7 [F8 [F9 [F10 [F11 F12]]]]]]]]]]].
   unfold LOOP_FUEL. rewrite loop_top_unfold. cbv zeta.
@@ -218,6 +226,8 @@ Proof.
   assert (S2 : seg0 d2 = seg0 d ++ frame m) by (rewrite (seg0_of_segs d1 d2 P11); exact F12).
   assert (G2 : seg_get (f_segs (fs d2)) 0 = Some (seg0 d2)) by (rewrite P11, S2; exact F11).
   assert (Hrl : (N.to_nat (readPos d) <= length (seg0 d))%nat) by lia.
+  assert (Htight2 : N.to_nat (writePos d2) = length (seg0 d2)) by (rewrite P2, F2, S2, app_length, frame_length; lia).
+  assert (Htail2 : skipn (N.to_nat (writePos d2)) (seg0 d2) = []) by (apply skipn_all2; lia).
   replace ((readFileNum d2 <? writeFileNum d2) || (readPos d2 <? writePos d2)) with true
     by (rewrite P1, P2, F1, F2; lia).
   destruct q as [|m0 q'].
@@ -234,32 +244,33 @@ Proof.
     + exact Hm.
     + rewrite P1, F1. lia.
     + rewrite P8, F8, S2. apply handle_ok_app. exact Hh.
-    + rewrite E. eexists. split; [reflexivity|]. split.
+    + rewrite E. eexists. split; [reflexivity|]. split; [split; [reflexivity | split; [reflexivity | first [reflexivity | cbn [setr readPos]; congruence]]]|]. split; [|split].
       * constructor; cbn [setr readPos writePos readFileNum writeFileNum depth nextReadPos nextReadFileNum rfile pending ready fs].
         -- rewrite P3, P4, F3, F4. auto.
-        -- change (seg0 (setr _ _ _)) with (seg0 d2). rewrite P2, F2, S2, app_length, frame_length. lia.
+        -- change (seg0 (setr _ _ _)) with (seg0 d2). lia.
         -- right. change (seg0 (setr _ _ _)) with (seg0 d2). exact G2.
         -- rewrite P2, F2. exact Hroom.
         -- rewrite P1, P2, F1, F2. lia.
-        -- change (seg0 (setr _ _ _)) with (seg0 d2). rewrite P1, F1, Hdata2. cbn [frames map concat app]. reflexivity.
+        -- change (seg0 (setr _ _ _)) with (seg0 d2). rewrite Htail2, P1, F1, Hdata2. cbn [frames map concat app]. rewrite !app_nil_r. reflexivity.
         -- rewrite P5, F5, Hdep. cbn [length app]. lia.
         -- intros x [<-|[]]. exact Hm.
         -- cbn [app]. split; [reflexivity|]. split; [reflexivity|]. split; [reflexivity|]. split; [|discriminate].
            change (seg0 (setr _ _ _)) with (seg0 d2). cbn [handle_ok]. split; [|exact Hn2].
            rewrite P1, F1. replace (N.to_nat (readPos d + 4 + N.of_nat (length m))) with (N.to_nat (readPos d) + 4 + length m)%nat by lia.
            exact Hi2.
+      * unfold tight. cbn [setr writePos]. change (seg0 (setr _ _ _)) with (seg0 d2). exact Htight2.
       * cbn [setr writePos]. rewrite P2, F2. reflexivity.
   - (* something is already read ahead *)
     destruct Hhead as [Hready [Hpend [Hnext [Hh Hnn]]]].
     replace (nextReadPos d2 =? readPos d2) with false by (rewrite P6, P1, F6, F1, Hnext; lia).
-    eexists. split; [reflexivity|]. split.
+    eexists. split; [reflexivity|]. split; [split; [reflexivity | split; [reflexivity | first [reflexivity | cbn [setr readPos]; congruence]]]|]. split; [|split].
     + constructor; cbn [setr readPos writePos readFileNum writeFileNum depth nextReadPos nextReadFileNum rfile pending ready fs].
       * rewrite P3, P4, P7, F3, F4, F7. auto.
-      * change (seg0 (setr _ _ _)) with (seg0 d2). rewrite P2, F2, S2, app_length, frame_length. lia.
+      * change (seg0 (setr _ _ _)) with (seg0 d2). lia.
       * right. change (seg0 (setr _ _ _)) with (seg0 d2). exact G2.
       * rewrite P2, F2. exact Hroom.
       * rewrite P1, P2, F1, F2. lia.
-      * change (seg0 (setr _ _ _)) with (seg0 d2). rewrite P1, F1, S2, skipn_app_le by exact Hrl.
+      * change (seg0 (setr _ _ _)) with (seg0 d2). rewrite Htail2, app_nil_r, P1, F1, S2, skipn_app_le by exact Hrl.
         rewrite Hdata. change ((m0 :: q') ++ [m]) with (m0 :: (q' ++ [m])). rewrite !frames_cons, frames_app, app_assoc. reflexivity.
       * rewrite P5, F5, Hdep. rewrite app_length. cbn [length]. lia.
       * intros x Hx. apply in_app_or in Hx as [Hx|[<-|[]]]; [apply Hsmall; exact Hx | exact Hm].
@@ -267,6 +278,7 @@ Proof.
         split; [rewrite P6, P1, F6, F1; exact Hnext|]. split.
         -- change (seg0 (setr _ _ _)) with (seg0 d2). rewrite P8, P6, F8, F6, S2. apply handle_ok_app. exact Hh.
         -- rewrite P8, F8. exact Hnn.
+    + unfold tight. cbn [setr writePos]. change (seg0 (setr _ _ _)) with (seg0 d2). exact Htight2.
     + cbn [setr writePos]. rewrite P2, F2. reflexivity.
 Qed.
 
@@ -293,18 +305,21 @@ Qed.
 
 Lemma get_step c d m q :
   qinv c d (m :: q) ->
-  exists d', loop_top c LOOP_FUEL (move_forward d) = Some d' /\ qinv c d' q /\ writePos d' = writePos d.
+  exists d', loop_top c LOOP_FUEL (move_forward d) = Some d' /\
+             (fs d' = fs (presync c (move_forward d)) /\ trace d' = trace (presync c (move_forward d)) /\ readPos d' = readPos (presync c (move_forward d))) /\
+             qinv c d' q /\ writePos d' = writePos d /\ seg0 d' = seg0 d.
 Proof.
   intros I. destruct I as [[Hrf [Hwf Hnf]] Hw Hex Hr Hrp Hdata Hdep Hsmall Hhead].
   destruct Hhead as [Hready [Hpend [Hnext [Hh Hnn]]]].
   assert (Hm : N.of_nat (length m) < 2147483648) by (apply Hsmall; left; reflexivity).
   (* where things are in the file *)
-  assert (Hlen : (N.to_nat (readPos d) + 4 + length m + length (frames q) = length (seg0 d))%nat).
-  { assert (L : length (skipn (N.to_nat (readPos d)) (seg0 d)) = length (frames (m :: q))) by (rewrite Hdata; reflexivity).
-    rewrite skipn_length, frames_cons, app_length, frame_length in L. lia. }
-  assert (Hrest : skipn (N.to_nat (nextReadPos d)) (seg0 d) = frames q).
+  assert (Hlen : (N.to_nat (readPos d) + 4 + length m + length (frames q) = N.to_nat (writePos d))%nat).
+  { assert (L : length (skipn (N.to_nat (readPos d)) (seg0 d)) = length (frames (m :: q) ++ skipn (N.to_nat (writePos d)) (seg0 d)))
+      by (rewrite Hdata; reflexivity).
+    rewrite skipn_length, app_length, skipn_length, frames_cons, app_length, frame_length in L. lia. }
+  assert (Hrest : skipn (N.to_nat (nextReadPos d)) (seg0 d) = frames q ++ skipn (N.to_nat (writePos d)) (seg0 d)).
   { rewrite Hnext. replace (N.to_nat (readPos d + 4 + N.of_nat (length m))) with (N.to_nat (readPos d) + (4 + length m))%nat by lia.
-    rewrite <- skipn_skipn', Hdata, frames_cons. rewrite <- frame_length.
+    rewrite <- skipn_skipn', Hdata, frames_cons, <- app_assoc. rewrite <- frame_length.
     rewrite skipn_app, Nat.sub_diag, skipn_all. reflexivity. }
   assert (Hle : nextReadPos d <= writePos d) by lia.
   assert (Hq0 : nextReadPos d = writePos d -> q = []).
@@ -325,41 +340,41 @@ Proof.
   - (* nothing left *)
     assert (E : nextReadPos d = writePos d) by (cbn [frames map concat length] in Hlen; lia).
     replace (nextReadPos d <? writePos d) with false by lia.
-    eexists. split; [reflexivity|]. split.
+    eexists. split; [reflexivity|]. split; [split; [reflexivity | split; [reflexivity | first [reflexivity | cbn [setr readPos]; congruence]]]|]. split.
     + constructor; cbn [setr readPos writePos readFileNum writeFileNum depth nextReadPos nextReadFileNum rfile pending ready fs].
       * rewrite P3, P4, P7. auto.
       * change (seg0 (setr _ _ _)) with (seg0 d2). rewrite P2, S2. exact Hw.
       * change (seg0 (setr _ _ _)) with (seg0 d2). rewrite P2, P11, S2. exact Hex.
       * rewrite P2. exact Hr.
       * rewrite P1, P2. lia.
-      * change (seg0 (setr _ _ _)) with (seg0 d2). rewrite P1, S2. exact Hrest.
+      * change (seg0 (setr _ _ _)) with (seg0 d2). rewrite P1, P2, S2. exact Hrest.
       * rewrite P5, Hdep. cbn [length]. lia.
       * intros x [].
       * split; [reflexivity|]. split; [rewrite P6, P1; reflexivity|].
         change (seg0 (setr _ _ _)) with (seg0 d2). rewrite P8, P1, S2. exact Hh.
-    + cbn [setr writePos]. exact P2.
+    + split; [cbn [setr writePos]; exact P2 | exact S2].
   - (* read the next record ahead *)
     pose proof (frames_length_pos m1 q') as Hpos.
     replace (nextReadPos d <? writePos d) with true by lia.
     rewrite P6, N.eqb_refl.
     assert (Hm1 : N.of_nat (length m1) < 2147483648) by (apply Hsmall; right; left; reflexivity).
     assert (Hlen1 : (4 + length m1 <= length (frames (m1 :: q')))%nat) by (rewrite frames_cons, app_length, frame_length; lia).
-    destruct (read_at c d2 m1 (frames q') (N.to_nat (nextReadPos d))) as [h2 [E [Hi2 Hn2]]].
+    destruct (read_at c d2 m1 (frames q' ++ skipn (N.to_nat (writePos d)) (seg0 d)) (N.to_nat (nextReadPos d))) as [h2 [E [Hi2 Hn2]]].
     + exact P3.
     + rewrite P11, S2. destruct Hex as [Hex|Hex]; [lia | exact Hex].
     + rewrite P1, N2Nat.id. reflexivity.
-    + rewrite S2, Hrest, frames_cons. reflexivity.
+    + rewrite S2, Hrest, frames_cons, <- app_assoc. reflexivity.
     + exact Hm1.
     + rewrite P1. lia.
     + rewrite P8, S2. exact Hh.
-    + rewrite E. eexists. split; [reflexivity|]. split.
+    + rewrite E. eexists. split; [reflexivity|]. split; [split; [reflexivity | split; [reflexivity | first [reflexivity | cbn [setr readPos]; congruence]]]|]. split.
       * constructor; cbn [setr readPos writePos readFileNum writeFileNum depth nextReadPos nextReadFileNum rfile pending ready fs].
         -- rewrite P3, P4. auto.
         -- change (seg0 (setr _ _ _)) with (seg0 d2). rewrite P2, S2. exact Hw.
         -- change (seg0 (setr _ _ _)) with (seg0 d2). rewrite P2, P11, S2. exact Hex.
         -- rewrite P2. exact Hr.
         -- rewrite P1, P2. lia.
-        -- change (seg0 (setr _ _ _)) with (seg0 d2). rewrite P1, S2. exact Hrest.
+        -- change (seg0 (setr _ _ _)) with (seg0 d2). rewrite P1, P2, S2. exact Hrest.
         -- rewrite P5, Hdep. cbn [length]. lia.
         -- intros x Hx. apply Hsmall. right. exact Hx.
         -- split; [reflexivity|]. split; [reflexivity|]. split; [reflexivity|]. split; [|discriminate].
@@ -367,11 +382,11 @@ Proof.
            rewrite P1, S2 in *.
            replace (N.to_nat (nextReadPos d + 4 + N.of_nat (length m1))) with (N.to_nat (nextReadPos d) + 4 + length m1)%nat by lia.
            exact Hi2.
-      * cbn [setr writePos]. exact P2.
+      * split; [cbn [setr writePos]; exact P2 | exact S2].
 Qed.
 
 (* ---- opening an empty directory ---- *)
-Lemma open_empty c : exists d, dq_open c fs_empty [] = Some d /\ qinv c d [] /\ writePos d = 0.
+Lemma open_empty c : exists d, dq_open c fs_empty [] = Some d /\ qinv c d [] /\ writePos d = 0 /\ tight d.
 Proof.
   unfold dq_open. cbn [f_meta fs_empty]. unfold LOOP_FUEL. rewrite loop_top_unfold. cbv zeta.
   set (r := {| readPos := 0; writePos := 0; readFileNum := 0; writeFileNum := 0; depth := 0%Z; nextReadPos := 0; nextReadFileNum := 0;
@@ -385,21 +400,23 @@ Proof.
   eexists. split; [reflexivity|]. split.
   - constructor; cbn [setr readPos writePos readFileNum writeFileNum depth nextReadPos nextReadFileNum rfile pending ready fs].
     + rewrite P3, P4, P7. auto.
-    + change (seg0 (setr _ _ _)) with (seg0 d2). rewrite P2, S2. reflexivity.
+    + change (seg0 (setr _ _ _)) with (seg0 d2). rewrite P2, S2. cbn. lia.
     + left. exact P2.
     + rewrite P2. lia.
     + rewrite P1, P2. lia.
-    + change (seg0 (setr _ _ _)) with (seg0 d2). rewrite P1, S2. reflexivity.
+    + change (seg0 (setr _ _ _)) with (seg0 d2). rewrite P1, P2, S2. reflexivity.
     + rewrite P5. reflexivity.
     + intros x [].
     + split; [reflexivity|]. split; [rewrite P6, P1; reflexivity|]. rewrite P8. exact I.
-  - cbn [setr writePos]. exact P2.
+  - split; [cbn [setr writePos]; exact P2|]. unfold tight. cbn [setr writePos]. change (seg0 (setr _ _ _)) with (seg0 d2). rewrite P2, S2. reflexivity.
 Qed.
 
 (* ---- a sync tick: nothing the consumer can see changes ---- *)
 Lemma tick_step c d q :
   qinv c d q ->
-  exists d', loop_top c LOOP_FUEL (set_needsync d true) = Some d' /\ qinv c d' q /\ writePos d' = writePos d.
+  exists d', loop_top c LOOP_FUEL (set_needsync d true) = Some d' /\
+             (fs d' = fs (presync c (set_needsync d true)) /\ trace d' = trace (presync c (set_needsync d true)) /\ readPos d' = readPos (presync c (set_needsync d true))) /\
+             qinv c d' q /\ writePos d' = writePos d /\ seg0 d' = seg0 d.
 Proof.
   intros I. destruct I as [[Hrf [Hwf Hnf]] Hw Hex Hr Hrp Hdata Hdep Hsmall Hhead].
   set (r := set_needsync d true).
@@ -410,43 +427,44 @@ Proof.
   cbn [r set_needsync readPos writePos readFileNum writeFileNum depth nextReadPos nextReadFileNum rfile pending ready fs] in P1, P2, P3, P4, P5, P6, P7, P8, P9, P10, P11.
   assert (S2 : seg0 d2 = seg0 d) by (apply seg0_of_segs; exact P11).
   rewrite P3, P4, P1, P2, Hrf, Hwf. cbn [N.ltb N.compare orb].
-  assert (Hlen : (N.to_nat (readPos d) + length (frames q) = length (seg0 d))%nat).
-  { assert (L : length (skipn (N.to_nat (readPos d)) (seg0 d)) = length (frames q)) by (rewrite Hdata; reflexivity).
-    rewrite skipn_length in L. lia. }
+  assert (Hlen : (N.to_nat (readPos d) + length (frames q) = N.to_nat (writePos d))%nat).
+  { assert (L : length (skipn (N.to_nat (readPos d)) (seg0 d)) = length (frames q ++ skipn (N.to_nat (writePos d)) (seg0 d)))
+      by (rewrite Hdata; reflexivity).
+    rewrite skipn_length, app_length, skipn_length in L. lia. }
   destruct q as [|m q'].
   - destruct Hhead as [Hready [Hnext Hh]].
     replace (readPos d <? writePos d) with false by (cbn [frames map concat length] in Hlen; lia).
-    eexists. split; [reflexivity|]. split.
+    eexists. split; [reflexivity|]. split; [split; [reflexivity | split; [reflexivity | first [reflexivity | cbn [setr readPos]; congruence]]]|]. split.
     + constructor; cbn [setr readPos writePos readFileNum writeFileNum depth nextReadPos nextReadFileNum rfile pending ready fs].
       * rewrite P3, P4, P7. auto.
       * change (seg0 (setr _ _ _)) with (seg0 d2). rewrite P2, S2. exact Hw.
       * change (seg0 (setr _ _ _)) with (seg0 d2). rewrite P2, P11, S2. exact Hex.
       * rewrite P2. exact Hr.
       * rewrite P1, P2. exact Hrp.
-      * change (seg0 (setr _ _ _)) with (seg0 d2). rewrite P1, S2. exact Hdata.
+      * change (seg0 (setr _ _ _)) with (seg0 d2). rewrite P1, P2, S2. exact Hdata.
       * rewrite P5. exact Hdep.
       * exact Hsmall.
       * split; [reflexivity|]. split; [rewrite P6, P1; exact Hnext|].
         change (seg0 (setr _ _ _)) with (seg0 d2). rewrite P8, P1, S2. exact Hh.
-    + cbn [setr writePos]. exact P2.
+    + split; [cbn [setr writePos]; exact P2 | exact S2].
   - destruct Hhead as [Hready [Hpend [Hnext [Hh Hnn]]]].
     pose proof (frames_length_pos m q') as Hpos.
     replace (readPos d <? writePos d) with true by lia.
     replace (nextReadPos d2 =? readPos d) with false by (rewrite P6, Hnext; lia).
-    eexists. split; [reflexivity|]. split.
+    eexists. split; [reflexivity|]. split; [split; [reflexivity | split; [reflexivity | first [reflexivity | cbn [setr readPos]; congruence]]]|]. split.
     + constructor; cbn [setr readPos writePos readFileNum writeFileNum depth nextReadPos nextReadFileNum rfile pending ready fs].
       * rewrite P3, P4, P7. auto.
       * change (seg0 (setr _ _ _)) with (seg0 d2). rewrite P2, S2. exact Hw.
       * change (seg0 (setr _ _ _)) with (seg0 d2). rewrite P2, P11, S2. exact Hex.
       * rewrite P2. exact Hr.
       * rewrite P1, P2. exact Hrp.
-      * change (seg0 (setr _ _ _)) with (seg0 d2). rewrite P1, S2. exact Hdata.
+      * change (seg0 (setr _ _ _)) with (seg0 d2). rewrite P1, P2, S2. exact Hdata.
       * rewrite P5. exact Hdep.
       * exact Hsmall.
       * split; [reflexivity|]. split; [rewrite P9; exact Hpend|]. split; [rewrite P6, P1; exact Hnext|]. split.
         -- change (seg0 (setr _ _ _)) with (seg0 d2). rewrite P8, P6, S2. exact Hh.
         -- rewrite P8. exact Hnn.
-    + cbn [setr writePos]. exact P2.
+    + split; [cbn [setr writePos]; exact P2 | exact S2].
 Qed.
 
 (* ---- a clean restart: Close persists the metadata, NewDiskQueue reads it back and re-reads the record that
@@ -457,7 +475,7 @@ Proof. unfold write_at. cbn [firstn Nat.sub repeat app Nat.add]. reflexivity. Qe
 Lemma reopen_step c d q :
   qinv c d q ->
   exists d', dq_open c (fs (dq_close d)) (trace (dq_close d)) = Some d' /\ qinv c d' q /\ writePos d' = writePos d
-             /\ depth (dq_close d) = Z.of_nat (length q).
+             /\ seg0 d' = seg0 d /\ depth (dq_close d) = Z.of_nat (length q).
 Proof.
   intros I. destruct I as [[Hrf [Hwf Hnf]] Hw Hex Hr Hrp Hdata Hdep Hsmall Hhead].
   unfold dq_close, persist_meta, mutate.
@@ -473,19 +491,20 @@ Proof.
   cbn [r readPos writePos readFileNum writeFileNum depth nextReadPos nextReadFileNum rfile pending ready fs f_segs] in P1, P2, P3, P4, P5, P6, P7, P8, P9, P10, P11.
   assert (S2 : seg0 d2 = seg0 d) by (unfold seg0; rewrite P11; reflexivity).
   rewrite P3, P4, P1, P2, Hrf, Hwf. cbn [N.ltb N.compare orb].
-  assert (Hlen : (N.to_nat (readPos d) + length (frames q) = length (seg0 d))%nat).
-  { assert (L : length (skipn (N.to_nat (readPos d)) (seg0 d)) = length (frames q)) by (rewrite Hdata; reflexivity).
-    rewrite skipn_length in L. lia. }
+  assert (Hlen : (N.to_nat (readPos d) + length (frames q) = N.to_nat (writePos d))%nat).
+  { assert (L : length (skipn (N.to_nat (readPos d)) (seg0 d)) = length (frames q ++ skipn (N.to_nat (writePos d)) (seg0 d)))
+      by (rewrite Hdata; reflexivity).
+    rewrite skipn_length, app_length, skipn_length in L. lia. }
   destruct q as [|m q'].
   - replace (readPos d <? writePos d) with false by (cbn [frames map concat length] in Hlen; lia).
-    eexists. split; [reflexivity|]. split; [|split; [exact P2 | exact Hdep]].
+    eexists. split; [reflexivity|]. split; [|split; [exact P2 | split; [exact S2 | exact Hdep]]].
     constructor; cbn [setr readPos writePos readFileNum writeFileNum depth nextReadPos nextReadFileNum rfile pending ready fs].
     + rewrite P3, P4, P7, ?Hrf, ?Hwf. auto.
     + change (seg0 (setr _ _ _)) with (seg0 d2). rewrite P2, S2. exact Hw.
     + change (seg0 (setr _ _ _)) with (seg0 d2). rewrite P2, P11, S2. exact Hex.
     + rewrite P2. exact Hr.
     + rewrite P1, P2. exact Hrp.
-    + change (seg0 (setr _ _ _)) with (seg0 d2). rewrite P1, S2. exact Hdata.
+    + change (seg0 (setr _ _ _)) with (seg0 d2). rewrite P1, P2, S2. exact Hdata.
     + rewrite P5. exact Hdep.
     + exact Hsmall.
     + split; [reflexivity|]. split; [rewrite P6, P1; reflexivity|]. rewrite P8. exact I.
@@ -494,22 +513,22 @@ Proof.
     rewrite P6, N.eqb_refl.
     assert (Hm : N.of_nat (length m) < 2147483648) by (apply Hsmall; left; reflexivity).
     assert (Hl1 : (4 + length m <= length (frames (m :: q')))%nat) by (rewrite frames_cons, app_length, frame_length; lia).
-    destruct (read_at c d2 m (frames q') (N.to_nat (readPos d))) as [h2 [E [Hi2 Hn2]]].
+    destruct (read_at c d2 m (frames q' ++ skipn (N.to_nat (writePos d)) (seg0 d)) (N.to_nat (readPos d))) as [h2 [E [Hi2 Hn2]]].
     + rewrite P3. exact Hrf.
     + rewrite P11, S2. destruct Hex as [Hex|Hex]; [lia | exact Hex].
     + rewrite P1, N2Nat.id. reflexivity.
-    + rewrite S2, Hdata, frames_cons. reflexivity.
+    + rewrite S2, Hdata, frames_cons, <- app_assoc. reflexivity.
     + exact Hm.
     + rewrite P1. lia.
     + rewrite P8. exact I.
-    + rewrite E. eexists. split; [reflexivity|]. split; [|split; [exact P2 | exact Hdep]].
+    + rewrite E. eexists. split; [reflexivity|]. split; [|split; [exact P2 | split; [exact S2 | exact Hdep]]].
       constructor; cbn [setr readPos writePos readFileNum writeFileNum depth nextReadPos nextReadFileNum rfile pending ready fs].
       * rewrite P3, P4, ?Hrf, ?Hwf. auto.
       * change (seg0 (setr _ _ _)) with (seg0 d2). rewrite P2, S2. exact Hw.
       * change (seg0 (setr _ _ _)) with (seg0 d2). rewrite P2, P11, S2. exact Hex.
       * rewrite P2. exact Hr.
       * rewrite P1, P2. exact Hrp.
-      * change (seg0 (setr _ _ _)) with (seg0 d2). rewrite P1, S2. exact Hdata.
+      * change (seg0 (setr _ _ _)) with (seg0 d2). rewrite P1, P2, S2. exact Hdata.
       * rewrite P5. exact Hdep.
       * exact Hsmall.
       * split; [reflexivity|]. split; [reflexivity|]. split; [reflexivity|]. split; [|discriminate].
@@ -541,37 +560,40 @@ Fixpoint fits (c : cfg) (wp : N) (ops : list dop) : bool :=
   | _ :: r => fits c wp r
   end.
 
+Lemma tight_same d d' : writePos d' = writePos d -> seg0 d' = seg0 d -> tight d -> tight d'.
+Proof. unfold tight. intros -> ->. auto. Qed.
+
 Theorem fifo_refinement c ops : forall d q,
-  qinv c d q -> fits c (writePos d) ops = true ->
+  qinv c d q -> tight d -> fits c (writePos d) ops = true ->
   fst (dq_run c (Some d) ops) = fifo_run q ops.
 Proof.
-  induction ops as [|o ops IH]; intros d q I F; [reflexivity|].
+  induction ops as [|o ops IH]; intros d q I T F; [reflexivity|].
   destruct o as [m| | |]; cbn [fits] in F.
   - (* Put *)
     apply andb_true_iff in F as [F F3]. apply andb_true_iff in F as [F1 F2].
-    destruct (put_step c d q m I ltac:(lia) ltac:(lia)) as [d' [E [I' W']]].
+    destruct (put_step c d q m I T ltac:(lia) ltac:(lia)) as [d' [E [_ [I' [T' W']]]]].
     cbn [dq_run dq_step fifo_run]. rewrite E.
-    specialize (IH d' (q ++ [m]) I' ltac:(rewrite W'; exact F3)).
+    specialize (IH d' (q ++ [m]) I' T' ltac:(rewrite W'; exact F3)).
     destruct (dq_run c (Some d') ops) as [outs dl]. cbn [fst] in *. rewrite IH. reflexivity.
   - (* Get *)
     cbn [dq_run dq_step fifo_run].
     destruct q as [|m q'].
     + destruct (qi_head c d [] I) as [Hr _]. rewrite Hr.
-      specialize (IH d [] I F).
+      specialize (IH d [] I T F).
       destruct (dq_run c (Some d) ops) as [outs dl]. cbn [fst] in *. rewrite IH. reflexivity.
     + destruct (qi_head c d (m :: q') I) as [Hr [Hp _]]. rewrite Hr, Hp.
-      destruct (get_step c d m q' I) as [d' [E [I' W']]]. rewrite E.
-      specialize (IH d' q' I' ltac:(rewrite W'; exact F)).
+      destruct (get_step c d m q' I) as [d' [E [_ [I' [W' S']]]]]. rewrite E.
+      specialize (IH d' q' I' (tight_same d d' W' S' T) ltac:(rewrite W'; exact F)).
       destruct (dq_run c (Some d') ops) as [outs dl]. cbn [fst] in *. rewrite IH. reflexivity.
   - (* SyncTick *)
     cbn [dq_run dq_step fifo_run].
-    destruct (tick_step c d q I) as [d' [E [I' W']]]. rewrite E.
-    specialize (IH d' q I' ltac:(rewrite W'; exact F)).
+    destruct (tick_step c d q I) as [d' [E [_ [I' [W' S']]]]]. rewrite E.
+    specialize (IH d' q I' (tight_same d d' W' S' T) ltac:(rewrite W'; exact F)).
     destruct (dq_run c (Some d') ops) as [outs dl]. cbn [fst] in *. rewrite IH. reflexivity.
   - (* CloseReopen *)
     cbn [dq_run dq_step fifo_run]. cbv zeta.
-    destruct (reopen_step c d q I) as [d' [E [I' [W' D']]]]. rewrite E, D'.
-    specialize (IH d' q I' ltac:(rewrite W'; exact F)).
+    destruct (reopen_step c d q I) as [d' [E [I' [W' [S' D']]]]]. rewrite E, D'.
+    specialize (IH d' q I' (tight_same d d' W' S' T) ltac:(rewrite W'; exact F)).
     destruct (dq_run c (Some d') ops) as [outs dl]. cbn [fst] in *. rewrite IH. reflexivity.
 Qed.
 
@@ -580,6 +602,6 @@ Theorem fifo_from_empty c ops :
   fits c 0 ops = true ->
   fst (dq_run c (dq_open c fs_empty []) ops) = fifo_run [] ops.
 Proof.
-  intros F. destruct (open_empty c) as [d [E [I W]]]. rewrite E.
-  apply fifo_refinement; [exact I | rewrite W; exact F].
+  intros F. destruct (open_empty c) as [d [E [I [W T]]]]. rewrite E.
+  apply fifo_refinement; [exact I | exact T | rewrite W; exact F].
 Qed.
